@@ -5,11 +5,23 @@
   Helper lemmas: WmModel/Lemmas/RouterLife*.lean.  `Old` witnesses (one repair switched off): Props/C06Old.lean.
 -/
 import WmModel.Lemmas.RouterLifeCoreStep
+import WmModel.Lemmas.RouterLifeRun
 namespace Wm.RouterLife
 open Wm.Lts
 
 theorem reach_core (fx : Fix) (hfx : fx.d5 = true) : ∀ s, Reach (sys fx) s → CoreOk fx s :=
   inv_of_step (sys fx) (CoreOk fx) (core_init fx) (fun s a s' h ha => core_step fx hfx s a s' h ha)
+
+theorem reach_ctl (fx : Fix) : ∀ s, Reach (sys fx) s → CtlOk s :=
+  inv_of_step (sys fx) CtlOk ctl_init (fun s a s' h ha => ctl_step fx s a s' h ha)
+
+theorem reach_life (fx : Fix) : ∀ s, Reach (sys fx) s → LifeOk fx s :=
+  inv_of_step' (sys fx) (LifeOk fx) (life_init fx)
+    (fun s a s' hr h ha => life_step fx s a s' (reach_ctl fx s hr) h ha)
+
+theorem reach_path (fx : Fix) : ∀ s, Reach (sys fx) s → PathOk s :=
+  inv_of_step' (sys fx) PathOk path_init
+    (fun s a s' hr h ha => path_step fx s a s' (reach_life fx s hr) h ha)
 
 /-- **Close returns nil only when no handler runs**: in every reachable state in which the Close call that performed
     the close has returned nil – and from then on for ever – no invocation is in progress (dispatched, started,
@@ -44,6 +56,215 @@ theorem no_start_after_close_nil (s : St) (h : Reach (sys allFixed) s) (hn : s.c
       · rename_i m hd; rw [hd] at this; cases this
       · rfl
     · rfl
+
+/-- **messages already on their way**: when the performing Close has returned nil, every message any subscriber ever
+    emitted (before its Close returned – the model allows no later emission) is either handled to completion and
+    settled, or was dropped by the closing decorator: never handled and never settled.  Nothing sits in a pump or in a
+    loop's hand any more. -/
+theorem message_fate (s : St) (h : Reach (sys allFixed) s) (hn : s.closeNil = true) :
+    ∀ x ∈ s.msgs, (x.stage = .done ∧ x.settle ≠ .none) ∨ (x.stage = .dropped ∧ x.settle = .none) := by
+  obtain ⟨hq, hl⟩ := close_nil_means_quiet s h hn
+  have hp := reach_path allFixed s h
+  have hlife := reach_life allFixed s h
+  intro x hx
+  obtain ⟨m, hm⟩ := List.mem_iff_getElem?.mp hx
+  have h4 := hp.p4 x hx
+  have hfl := hq x hx
+  cases hs : x.stage with
+  | pump =>
+    obtain ⟨y, hy, hpy⟩ := hp.p1 m x hm hs
+    have hym := mem_of_getElem? _ _ _ hy
+    have he := hl y hym
+    have h8 := (hlife.all y hym).l8
+    cases hlp : y.loop <;> rw [hlp] at he <;> simp [Loop.ended] at he
+    · have := h8 (Or.inr (Or.inr (Or.inl hlp))); rw [hpy] at this; cases this
+    · have := h8 (Or.inr (Or.inr (Or.inr hlp))); rw [hpy] at this; cases this
+  | recv =>
+    obtain ⟨y, hy, hpy⟩ := hp.p2 m x hm hs
+    have he := hl y (mem_of_getElem? _ _ _ hy)
+    rw [hpy] at he; cases he
+  | dropped => exact Or.inr ⟨rfl, h4.mpr (by rw [hs]; simp)⟩
+  | done =>
+    refine Or.inl ⟨rfl, ?_⟩
+    intro hc; exact (h4.mp hc) hs
+  | disp => rw [hs] at hfl; cases hfl
+  | inH => rw [hs] at hfl; cases hfl
+  | pub => rw [hs] at hfl; cases hfl
+  | preSettle => rw [hs] at hfl; cases hfl
+
+/-- **closes every handler's publisher**: when Close has returned nil every handler's publisher has seen exactly one
+    Close call (made by the handler's loop before it counts as ended); in every reachable state at most one -/
+theorem publisher_closed_before_close_returns (s : St) (h : Reach (sys allFixed) s) (hn : s.closeNil = true) :
+    ∀ y ∈ s.hs, y.pubCloseCalls = 1 := by
+  obtain ⟨_, hl⟩ := close_nil_means_quiet s h hn
+  intro y hy
+  have h7 := (reach_life allFixed s h).all y hy |>.l7
+  have he := hl y hy
+  cases hlp : y.loop <;> rw [hlp] at he <;> simp [Loop.ended] at he <;> simp [hlp] at h7 <;> exact h7
+
+theorem publisher_closed_at_most_once (fx : Fix) (s : St) (h : Reach (sys fx) s) :
+    ∀ y ∈ s.hs, y.pubCloseCalls ≤ 1 := by
+  intro y hy
+  have h7 := (reach_life fx s h).all y hy |>.l7
+  rw [h7]; split <;> simp
+
+/-- **closes every handler's subscriber**: at most one Close call per handler, ever; and a handleClose goroutine that
+    is at its select while the router is closing can proceed, and whichever alternative it takes (`routersCloseCh` or
+    `ctx.Done` – fix D6) it calls the subscriber's Close -/
+theorem subscriber_closed_by_handle_close (s : St) (h : Reach (sys allFixed) s) (i : Nat) (y : Handler)
+    (hy : s.hs[i]? = some y) :
+    y.subCloseCalls ≤ 1 ∧
+    (s.closing = true → y.hc = .sel →
+      (act allFixed s (.hcClose i)).isSome = true ∧
+      ∀ a s', (a = .hcClose i ∨ a = .hcCtx i) → act allFixed s a = some s' →
+        ∃ y', s'.hs[i]? = some y' ∧ y'.hc = .innerCall ∧ y'.subCloseCalls = 1) := by
+  have hok := (reach_life allFixed s h).all y (mem_of_getElem? _ _ _ hy)
+  refine ⟨hok.l10.2.2, ?_⟩
+  intro hc hsel
+  have h0 : y.subCloseCalls = 0 := hok.l10.2.1 (Or.inr hsel)
+  refine ⟨by simp [act, hy, hsel, hc], ?_⟩
+  intro a s' ha hact
+  rcases ha with rfl | rfl
+  · simp [act, hy, hsel, hc] at hact; subst hact
+    exact ⟨_, getElem?_modify_self _ _ _ _ hy, rfl, by simp [h0]⟩
+  · simp only [act, hy] at hact
+    split at hact
+    · simp [allFixed, hc] at hact; subst hact
+      exact ⟨_, getElem?_modify_self _ _ _ _ hy, rfl, by simp [h0]⟩
+    · simp at hact
+
+/-- **If running handlers outlive CloseTimeout, Close returns an error instead of hanging**: while the performing Close
+    waits, the timer can fire; once it has fired the call can return, and it returns the error, closing closedCh and
+    releasing both locks – whatever the handlers do -/
+theorem close_timeout_returns_error (fx : Fix) (s : St) (h : Reach (sys fx) s) (k : Nat)
+    (hk : s.closers[k]? = some CPc.waiting) :
+    (act fx s .timer).isSome = true ∧
+    (s.timerFired = true → ∃ s', act fx s (.closeTimeout k) = some s' ∧ s'.closers[k]? = some (CPc.ret true) ∧
+        s'.closedCh = true ∧ s'.cl = none ∧ s'.hl = .free) := by
+  obtain ⟨hc, hcc, _, _⟩ := (reach_ctl fx s h).k1 k hk
+  have hlen : k < s.closers.length := by
+    rcases Nat.lt_or_ge k s.closers.length with h | h
+    · exact h
+    · rw [List.getElem?_eq_none h] at hk; cases hk
+  refine ⟨by simp [act, hc, hcc], ?_⟩
+  intro ht
+  refine ⟨{ (setC s k (.ret true)) with closedCh := true, cl := none, hl := .free, closeErr := true }, ?_, ?_, rfl, rfl, rfl⟩
+  · simp [act, hk, ht]
+  · simp [setC, hlen]
+
+/-- the steps of the close protocol, of the timer and of a RunHandlers call that holds `handlersLock` -/
+def closeStep : Action → Bool
+  | .closeCL _ | .closeHL _ | .closeDone _ | .closeTimeout _ | .timer | .rhSub _ | .rhStep | .rhSpawn | .rhEnd => true
+  | _ => false
+
+/-- the sub-step counter of RunHandlers stays within 0..2 -/
+def CurSt (s : St) : Prop := ∀ v i st, s.hl = .rh v (some (i, st)) → st ≤ 2
+
+theorem curst_step (fx : Fix) (s : St) (a : Action) (s' : St) (h : CurSt s) (ha : act fx s a = some s') : CurSt s' := by
+  unfold CurSt at *
+  cases a <;> simp only [act] at ha
+  all_goals (repeat' split at ha)
+  all_goals (try (simp at ha))
+  all_goals (try subst ha)
+  all_goals (first
+    | exact h
+    | (intro v i st hh; simp_all [updH, updM, setC]; try omega)
+    | (intro v i st hh; simp [updH, updM, setC] at hh; try omega))
+
+theorem reach_curst (fx : Fix) : ∀ s, Reach (sys fx) s → CurSt s :=
+  inv_of_step (sys fx) CurSt (by intro v i st hh; simp [sys, init] at hh) (fun s a s' h ha => curst_step fx s a s' h ha)
+
+/-- a RunHandlers call that holds `handlersLock` can always make a step of its own (it never waits for anybody) -/
+theorem runhandlers_progress (fx : Fix) (s : St) (h : Reach (sys fx) s) (v : Bool) (c : Option (Nat × Nat))
+    (hh : s.hl = .rh v c) : ∃ a, closeStep a = true ∧ (act fx s a).isSome = true := by
+  match c with
+  | some (i, st) =>
+    have h0 := reach_curst fx s h v i st hh
+    match st with
+    | 0 => exact ⟨.rhStep, rfl, by simp [act, hh]⟩
+    | 1 => exact ⟨.rhStep, rfl, by simp [act, hh]⟩
+    | 2 => exact ⟨.rhSpawn, rfl, by simp [act, hh]⟩
+    | n + 3 => omega
+  | none =>
+    cases hf : s.hs.findIdx? (fun h => !(h.started || h.removed)) with
+    | none =>
+      have hall : s.hs.all (fun h => h.started || h.removed) = true := by
+        rw [List.all_eq_true]; intro y hy
+        have := List.findIdx?_eq_none_iff.mp hf y hy
+        cases hs1 : y.started <;> cases hs2 : y.removed <;> simp_all
+      exact ⟨.rhEnd, rfl, by simp only [act, hh]; simp [hall]⟩
+    | some i =>
+      obtain ⟨hlt, hp, _⟩ := List.findIdx?_eq_some_iff_getElem.mp hf
+      have hi : s.hs[i]? = some s.hs[i] := List.getElem?_eq_getElem hlt
+      simp at hp
+      exact ⟨.rhSub i, rfl, by simp [act, hh, hi, hp]⟩
+
+/-- **every Close call returns** (progress form, no fairness about handlers needed): as long as a Close call has not
+    returned, a step of the close protocol, of the CloseTimeout timer or of the RunHandlers call holding `handlersLock` is
+    enabled – never a step of a handler, a subscriber or another caller.  So no Close call is ever blocked for ever:
+    concurrent callers queue on `closedLock`, the performing call leaves through `closeDone` or the timeout. -/
+theorem every_close_call_can_proceed (fx : Fix) (s : St) (h : Reach (sys fx) s) (k : Nat) (pc : CPc)
+    (hk : s.closers[k]? = some pc) (hnr : ∀ e, pc ≠ .ret e) :
+    ∃ a, closeStep a = true ∧ (act fx s a).isSome = true := by
+  have hctl := reach_ctl fx s h
+  have waiting : ∀ j : Nat, s.closers[j]? = some CPc.waiting → ∃ a, closeStep a = true ∧ (act fx s a).isSome = true := by
+    intro j hj
+    obtain ⟨hc, hcc, _, _⟩ := hctl.k1 j hj
+    exact ⟨.timer, rfl, by simp [act, hc, hcc]⟩
+  have onHL : ∀ j : Nat, s.closers[j]? = some CPc.wantHL → ∃ a, closeStep a = true ∧ (act fx s a).isSome = true := by
+    intro j hj
+    cases hhl : s.hl with
+    | free =>
+      refine ⟨.closeHL j, rfl, ?_⟩
+      simp only [act, hj, hhl]
+      cases s.closed <;> simp
+    | closer j' => exact waiting j' (hctl.k4 j' hhl)
+    | rh v c => exact runhandlers_progress fx s h v c hhl
+  cases pc with
+  | ret e => exact absurd rfl (hnr e)
+  | waiting => exact waiting k hk
+  | wantHL => exact onHL k hk
+  | wantCL =>
+    cases hcl : s.cl with
+    | none => exact ⟨.closeCL k, rfl, by simp [act, hk, hcl]⟩
+    | some j =>
+      rcases hctl.k3 j hcl with hj | hj
+      · exact onHL j hj
+      · exact waiting j hj
+
+/-- **Close may be called repeatedly**: a call that finds the router already closed returns nil at once -/
+theorem close_again_returns_nil (fx : Fix) (s s' : St) (k : Nat) (hc : s.closed = true)
+    (ha : act fx s (.closeHL k) = some s') : s'.closers[k]? = some (CPc.ret false) ∧ s'.hs = s.hs ∧ s'.msgs = s.msgs := by
+  simp only [act] at ha
+  split at ha
+  · rename_i hk
+    have hlen : k < s.closers.length := by
+      rcases Nat.lt_or_ge k s.closers.length with h | h
+      · exact h
+      · rw [List.getElem?_eq_none h] at hk; cases hk
+    split at ha
+    · simp [hc] at ha; subst ha
+      exact ⟨by simp [setC, hlen], rfl, rfl⟩
+    · simp at ha
+  · simp at ha
+
+/-- **Run returns only after the close has completed, never while Close is still waiting for handlers**: when Run has
+    returned, closedCh is closed, the performing Close has returned (nil or the timeout error) and no Close call is waiting;
+    and the step that lets Run return is not enabled before closedCh is closed -/
+theorem run_returns_only_after_closed (fx : Fix) (s : St) (h : Reach (sys fx) s) :
+    (s.run = .ret → s.closedCh = true ∧ (s.closeNil = true ∨ s.closeErr = true) ∧
+        ∀ k : Nat, s.closers[k]? ≠ some CPc.waiting) ∧
+    (s.closedCh = false → act fx s .runRet = none) := by
+  have hctl := reach_ctl fx s h
+  constructor
+  · intro hr
+    have hcc := hctl.k8.1 hr
+    refine ⟨hcc, hctl.k5.2.mp hcc, ?_⟩
+    intro k hk
+    have := (hctl.k1 k hk).2.1
+    rw [hcc] at this; cases this
+  · intro hcc
+    simp [act, hcc]
 
 /-! non-vacuity: one handler, a message in the handler when Close arrives, a second message emitted by the subscriber
     *during* its Close (between call and return), dispatched while the waiter waits; Close returns nil only after both ended -/
